@@ -171,3 +171,38 @@ let handle (x : t) : (int * string list) option =
   match x with
   | L [I 18; ops; obs] -> Some (cmd_term ops obs)
   | _ -> handle x
+
+(* (19 kind (untyped callback...) ((w id)...))   untyped callback: (3 (objs)) OnInitialize | (ty obj) with ty 0 create 1 update 2 delete
+   the callbacks a unitary typed handler (ToUnitary) received, as (w id) with w 0 create 1 update 2 delete 3 initialise,
+   are Typed.unitary_log of the untyped monitor's callbacks; maximal runs of one kind are compared as sets (the events of
+   one synchronisation come in map order) *)
+let canon_runs (l : (int * int) list) : (int * int) list =
+  let flush cur acc = List.rev_append (List.sort compare cur) acc in
+  let rec go acc cur = function
+    | [] -> List.rev (flush cur acc)
+    | (w, i) :: r ->
+      (match cur with
+       | (w', _) :: _ when w' = w -> go acc ((w, i) :: cur) r
+       | _ -> go (flush cur acc) [(w, i)] r)
+  in go [] [] l
+
+let cmd_unitary kind ulog tlog =
+  let kind = d_n kind in
+  let ety = function 0 -> Create | 1 -> Update | 2 -> Delete | _ -> bad "event type" in
+  let ulog = List.map (function
+      | L [I 3; objs] -> TInit (d_list d_obj objs)
+      | L [I ty; o] -> TEvent (ety ty, d_obj o)
+      | _ -> bad "callback") (match ulog with L l -> l | _ -> bad "ulog") in
+  let tlog = List.map (function L [I w; I id] -> (w, id) | _ -> bad "typed callback") (match tlog with L l -> l | _ -> bad "tlog") in
+  let tyi = function Create -> 0 | Update -> 1 | Delete -> 2 in
+  let model = List.concat_map (function
+      | TInit objs -> List.map (fun o -> (3, int_of_n o.o_id)) objs
+      | TEvent (ty, o) -> [(tyi ty, int_of_n o.o_id)]) (unitary_log kind ulog) in
+  let show l = String.concat " " (List.map (fun (w, i) -> Printf.sprintf "%d:%d" w i) l) in
+  if canon_runs model = canon_runs tlog then (List.length ulog, [])
+  else (List.length ulog, [Printf.sprintf "kind=typedview unitary handler impl=[%s] model=[%s]" (show tlog) (show model)])
+
+let handle (x : t) : (int * string list) option =
+  match x with
+  | L [I 19; k; u; t] -> Some (cmd_unitary k u t)
+  | _ -> handle x
